@@ -468,9 +468,116 @@ func runC15(r *Rng, n int, tier string) {
 	for i := 0; i < ne; i++ {
 		emit(c15E2E(r, fmt.Sprintf("e2e-%d", i)))
 	}
+	for i := 0; i < ne/2+4; i++ {
+		emit(c15Mixed(r, fmt.Sprintf("mixed-%d", i)))
+	}
 }
 
 func modelNameMatches(structName, table string) bool {
 	want := map[string]string{"authors": "Author", "books": "Book", "coauthors": "Coauthor", "authors_archive": "AuthorsArchive"}[table]
 	return structName == want
+}
+
+// c15Mixed: packages of two engines in one configuration, global overrides tagged with the engine they are meant
+// for, and package-level overrides in one package only. Every package is judged against what its own entries say.
+func c15Mixed(r *Rng, id string) Case {
+	pgSchema := "CREATE TABLE authors (id bigint NOT NULL, name text NOT NULL, uid uuid NOT NULL, meta jsonb NOT NULL, bio text);\n"
+	mySchema := "CREATE TABLE authors (id bigint NOT NULL, name varchar(100) NOT NULL, created datetime NOT NULL, bio text);\n"
+	files := map[string]string{"pg.sql": pgSchema, "my.sql": mySchema,
+		"qpg.sql": "-- name: ListAuthors :many\nSELECT * FROM authors;\n\n-- name: GetName :one\nSELECT name FROM authors WHERE id = $1;\n",
+		"qmy.sql": "-- name: ListAuthors :many\nSELECT * FROM authors;\n\n-- name: GetName :one\nSELECT name FROM authors WHERE id = ?;\n"}
+	globals := []string{
+		`{"db_type":"uuid","go_type":"github.com/google/uuid.UUID","engine":"postgresql"}`,
+		`{"db_type":"datetime","go_type":"github.com/lib/pq.NullTime","engine":"mysql"}`,
+	}
+	if r.Bool() {
+		globals = append(globals, `{"db_type":"jsonb","go_type":"encoding/json.Number","engine":"postgresql"}`)
+	}
+	globals = permuted(r, globals)
+	hasDoc := len(globals) == 3
+	pkgOv := `{"column":"authors.name","go_type":"math/big.Int"}`
+	type pk struct {
+		name, engine, ov string
+		want           map[string]string
+	}
+	doc := "json.RawMessage"
+	if hasDoc {
+		doc = "json.Number"
+	}
+	pks := []pk{
+		{"a", "postgresql", pkgOv, map[string]string{"Name": "big.Int", "Uid": "uuid.UUID", "Meta": doc}},
+		{"m", "mysql", "", map[string]string{"Name": "string", "Created": "pq.NullTime"}},
+		{"c", "postgresql", "", map[string]string{"Name": "string", "Uid": "uuid.UUID", "Meta": doc}},
+	}
+	if r.Chance(40) {
+		pks = append(pks, pk{"n", "mysql", `{"column":"authors.bio","go_type":"net/url.URL","nullable":true}`, map[string]string{"Name": "string", "Created": "pq.NullTime", "Bio": "url.URL"}})
+	}
+	order := r.Perm(len(pks))
+	v2 := r.Bool()
+	var entries []string
+	for _, k := range order {
+		p := pks[k]
+		schema, q := "pg.sql", "qpg.sql"
+		if p.engine == "mysql" {
+			schema, q = "my.sql", "qmy.sql"
+		}
+		ov := ""
+		if p.ov != "" {
+			ov = `,"overrides":[` + p.ov + `]`
+		}
+		if v2 {
+			entries = append(entries, fmt.Sprintf(`{"engine":%q,"schema":%q,"queries":%q,"gen":{"go":{"package":%q,"out":%q%s}}}`, p.engine, schema, q, p.name, p.name, ov))
+		} else {
+			entries = append(entries, fmt.Sprintf(`{"name":%q,"path":%q,"engine":%q,"schema":%q,"queries":%q%s}`, p.name, p.name, p.engine, schema, q, ov))
+		}
+	}
+	if v2 {
+		files["sqlc.json"] = `{"version":"2","overrides":{"go":{"overrides":[` + strings.Join(globals, ",") + `]}},"sql":[` + strings.Join(entries, ",") + `]}`
+	} else {
+		files["sqlc.json"] = `{"version":"1","overrides":[` + strings.Join(globals, ",") + `],"packages":[` + strings.Join(entries, ",") + `]}`
+	}
+	var orderNames []string
+	for _, k := range order {
+		orderNames = append(orderNames, pks[k].name)
+	}
+	tags := []string{"mixed-engines", "order:" + strings.Join(orderNames, ""), fmt.Sprintf("v2=%v", v2)}
+	in := J{"kind": "mixed", "files": files}
+	res := generate(files)
+	if !res.OK() {
+		e := firstLine(res.Stderr + res.Err + res.Panic)
+		return Case{ID: id, Kind: "e2e", In: in, Impl: J{"ok": false, "err": e}, Oracle: "generation failed for a valid override set: " + e, Tags: tags}
+	}
+	var problems []string
+	obs := J{"ok": true}
+	for _, p := range pks {
+		fw := pkgFiles2(res, p.name)
+		if msg := typeCheck(fw); msg != "" {
+			problems = append(problems, fmt.Sprintf("package %s does not type-check: %s", p.name, msg))
+		}
+		sum := summarize(fw)
+		st := sum.structNamed("Author")
+		got := map[string]string{}
+		if st != nil {
+			for _, f := range st.Fields {
+				got[f.Name] = f.Type
+			}
+		}
+		obs["model:"+p.name] = got
+		for _, fn := range sortedKeys(p.want) {
+			if got[fn] != p.want[fn] {
+				problems = append(problems, fmt.Sprintf("package %s (%s; own overrides [%s]; globals %v): Author.%s is %q, its configuration says %q", p.name, p.engine, p.ov, globals, fn, got[fn], p.want[fn]))
+			}
+		}
+		if m := sum.method("GetName"); m != nil {
+			if len(m.Results) == 0 || m.Results[0] != p.want["Name"] {
+				problems = append(problems, fmt.Sprintf("package %s: GetName returns %v, expected %s", p.name, m.Results, p.want["Name"]))
+			}
+		}
+	}
+	sort.Strings(problems)
+	oracle := ""
+	if len(problems) > 0 {
+		oracle = strings.Join(problems[:min(len(problems), 3)], " | ")
+	}
+	return Case{ID: id, Kind: "e2e", In: in, Impl: obs, Oracle: oracle, Tags: tags}
 }
